@@ -157,7 +157,7 @@ func chainMutations(purpose string) []chainMut {
 	for _, k := range []struct {
 		id string
 		ok bool
-	}{{"rsa1024-0", false}, {"rsa2056-0", false}, {"rsa2560-0", false}, {"rsa3200-0", false}, {"rsa5120-0", false}, {"rsa2048-0", true}, {"rsa3072-0", true}, {"rsa4096-0", true}, {"ec224-0", false}, {"ec256-1", true}, {"ec384-0", true}, {"ec521-0", true}, {"ed-0", false}} {
+	}{{"rsa1024-0", false}, {"rsa2056-0", false}, {"rsa2000-0", false}, {"rsa2040-0", false}, {"rsa3064-0", false}, {"rsa4088-0", false}, {"rsa4104-0", false}, {"rsa2560-0", false}, {"rsa3200-0", false}, {"rsa5120-0", false}, {"rsa2048-0", true}, {"rsa3072-0", true}, {"rsa4096-0", true}, {"ec224-0", false}, {"ec256-1", true}, {"ec384-0", true}, {"ec521-0", true}, {"ed-0", false}} {
 		k := k
 		add("leaf-key-"+k.id, k.ok, "leaf", func(s []*CertSpec, p int) { s[p].KeyID = k.id })
 	}
